@@ -192,8 +192,25 @@ def verify_full(M):
             return ex.observe("ACCEPTED-FORGERY")
         ex.tag("accepted")
         ex.require(acc.accepts_m3(M, req), "the accessory accepts the controller's proof (PV-Msg03, signature over iosPK|iosId|accPK)")
+        m4 = ex.choice("m4", M4S)
+        m4_fields = {"state4": [(T_STATE, b"\x04")], "state4+error": [(T_STATE, b"\x04"), (T_ERROR, be.arbitrary("m4err", 1))],
+                     "state4+empty-error": [(T_STATE, b"\x04"), (T_ERROR, b"")], "error-only": [(T_ERROR, b"\x02")],
+                     "wrong-state": [(T_STATE, b"\x02")], "empty-state": [(T_STATE, b"")]}[m4]
+        if m4 != "state4":
+            # the accessory did not accept (or the reply is out of sequence): with the transport's filter and without it (BLE)
+            flt = expected if ex.choice("m4_filter", ["transport-filter", "unfiltered"]) == "transport-filter" else None
+            try:
+                send(M, be, gen, m4_fields, flt)
+            except StopIteration:
+                ex.require(False, "an M4 that reports an error or a wrong step yields no keys (%s)" % m4)
+                return ex.observe("keys-after-rejection")
+            except Exception:
+                ex.tag("m4-rejected")
+                return ex.observe("m4-rejected")
+            ex.require(False, "M4 ends the exchange")
+            return ex.observe("no-stop")
         try:
-            send(M, be, gen, [(T_STATE, b"\x04")], expected)
+            send(M, be, gen, m4_fields, expected)
             ex.require(False, "M4 ends the exchange")
             return ex.observe("no-stop")
         except StopIteration as r:
@@ -204,6 +221,41 @@ def verify_full(M):
         ex.require(eq(be, session_id, acc.key(b"Pair-Verify-ResumeSessionID-Salt", b"Pair-Verify-ResumeSessionID-Info", 8)),
                    "resumable session id is the one the accessory derives")
         return ex.observe("accepted")
+    return h
+
+
+M4S = ["state4", "state4+error", "state4+empty-error", "error-only", "wrong-state", "empty-state"]
+
+
+def two_exchanges(M):
+    """every exchange uses a fresh controller key, so a reply recorded in one exchange is useless in the next"""
+    def h(ex):
+        be = hap.backend(ex, M.proto)
+        gen1 = M.proto.get_session_keys(hap.pairing_data())
+        req1, expected = gen1.send(None)
+        pub1 = dict(req1)[T_PUBKEY]
+        acc = Accessory(be)
+        pub, enc = acc.m2(pub1)
+        req3, expected3 = send(M, be, gen1, [(T_STATE, b"\x02"), (T_PUBKEY, pub), (T_ENC, enc)], expected)
+        ex.require(acc.accepts_m3(M, req3), "first exchange: the accessory accepts the controller's proof")
+        try:
+            send(M, be, gen1, [(T_STATE, b"\x04")], expected3)
+        except StopIteration:
+            pass
+        gen2 = M.proto.get_session_keys(hap.pairing_data())
+        req2, expected = gen2.send(None)
+        pub2 = dict(req2)[T_PUBKEY]
+        ex.require(not decide(eq(be, pub1, pub2)), "the controller's exchange key is fresh in every exchange")
+        try:
+            send(M, be, gen2, [(T_STATE, b"\x02"), (T_PUBKEY, pub), (T_ENC, enc)], expected)
+        except StopIteration:
+            ex.require(False, "no keys are handed out on M2")
+            return ex.observe("keys-at-M2")
+        except Exception:
+            ex.tag("replay-rejected")
+            return ex.observe("replay-rejected")
+        ex.require(False, "an M2 recorded in an earlier exchange is rejected in the next one")
+        return ex.observe("REPLAY-ACCEPTED")
     return h
 
 
@@ -563,7 +615,9 @@ def build(tier, mutate=None):
         Unit("verify/adversarial-M2", verify_full(C), verify_full(R), split=True,
              bounds={"public_key": PK, "encrypted_data": CT, "adversary sub-TLV": {"identifier": IDS, "signature": SIGS, "layout": ORDER},
                      "arbitrary fields": "symbolic bytes of the real lengths (32/31/93/64/8)"},
-             regions=["accepted", "rejected"]),
+             regions=["accepted", "rejected", "m4-rejected"]),
+        Unit("verify/two-exchanges", two_exchanges(C), two_exchanges(R), bounds={"exchanges": 2, "replayed": "the first exchange's genuine M2"},
+             regions=["replay-rejected"]),
         Unit("verify/resume", verify_resume(C), verify_resume(R), split=True,
              bounds={"method": METHODS, "tag": TAGS, "new session id": "8 arbitrary bytes"}, regions=["resumed", "not-resumed"]),
         Unit("install/ble", install_ble(C), install_ble(R), bounds={"exchange": "honest"}),
